@@ -11,8 +11,11 @@ package libp2p
 // of the act changed (the signature then still covers the old bytes), another
 // peer id, a signature by the attacker's own key, or the envelope recorded in
 // an earlier honest session of the same two peers. Nonces are scripted through
-// crypto/rand.Reader. Compared: which side completes, and every field of every
-// envelope a side sends.
+// crypto/rand.Reader. Bit flips of a raw nonce or of one 8-byte word of the
+// 32-byte challenge are applied to the real bytes in flight; a behaviour with
+// such a flip is run three times (first, a middle, the last byte of the word;
+// the middle byte rotates over the runs). Compared: which side completes, and
+// every field of every envelope a side sends.
 
 import (
 	"bufio"
@@ -199,11 +202,12 @@ func TestVerif_C20_Wire(t *testing.T) {
 	defer func() { crand.Reader = saved }()
 	pass := func(_ int, e *pb.HandshakeEnvelope) *pb.HandshakeEnvelope { return e }
 
-	// challenges by model nonce pair, learned from honest runs of the real code
+	// challenges by concrete nonce pair, learned from honest runs of the real code
 	nonces := []int{1, 2, 3}
-	chal := map[[2]int]string{}
-	seenChal := map[string][2]int{}
+	chal := map[[2]uint64]string{}
+	seenChal := map[string][2]uint64{}
 	honest := map[string]*c20Session{} // "n1:n2:proto"
+	touched := map[string]bool{}
 	runHonest := func(a, b int, p string) *c20Session {
 		k := fmt.Sprintf("%d:%d:%s", a, b, p)
 		if s, ok := honest[k]; ok {
@@ -226,162 +230,250 @@ func TestVerif_C20_Wire(t *testing.T) {
 				return
 			}
 			c := c20Parse(t, 2, s.sent[2].Message).chal
+			pr := [2]uint64{c20Nonce[a], c20Nonce[b]}
 			if prev, dup := seenChal[c]; dup {
-				rep.Diverge("challenge-collision", fmt.Sprintf("nonce pairs %v and %v give the same challenge: it is not derived from both nonces", prev, [2]int{a, b}), nil, nil, nil)
+				rep.Diverge("challenge-collision", fmt.Sprintf("nonce pairs %x and %x give the same challenge: it is not derived from both nonces", prev, pr), nil, nil, nil)
 				rep.Eval("honest", map[string]interface{}{"n1": a, "n2": b, "outcome": "challenge collision"})
 				return
 			}
-			seenChal[c] = [2]int{a, b}
-			chal[[2]int{a, b}] = c
+			if len(c) != 32 {
+				t.Fatalf("challenge of %d bytes", len(c))
+			}
+			seenChal[c] = pr
+			chal[pr] = c
 		}
 	}
 
-	// real bytes of a model message
-	build := func(act int, m kit.V) []byte {
-		nb := make([]byte, 8)
-		binary.LittleEndian.PutUint64(nb, c20Nonce[m.Get("nonce").Int()])
-		pair := [2]int{m.Get("chal").Idx(0).Int(), m.Get("chal").Idx(1).Int()}
-		var msg proto.Message
-		switch act {
-		case 1:
-			msg = &pb.Act1Message{Nonce: nb, Protocol: m.Get("proto").Str()}
-		case 2:
-			msg = &pb.Act2Message{Nonce: nb, Challenge: []byte(chal[pair]), Protocol: m.Get("proto").Str()}
-		default:
-			msg = &pb.Act3Message{Challenge: []byte(chal[pair])}
-		}
-		b, err := proto.Marshal(msg)
-		if err != nil {
-			t.Fatal(err)
-		}
-		return b
-	}
-
-	for _, c := range cases {
+	for ci, c := range cases {
 		steps := c.Get("steps").List()
 		ip, rp := c.Get("ip").Str(), c.Get("rp").Str()
 		old := c.Get("old")
 		// n2: the responder's nonce, if it ever answers
 		n2 := 0
+		flips := false
 		for _, s := range steps {
 			if v := s.Get("n2").Int(); v != 0 {
 				n2 = v
 			}
-		}
-		// final envelope per act after the attacker's steps, and the specification's envelopes as sent
-		type target struct {
-			net    kit.V
-			replay bool
-		}
-		final := map[int]target{}
-		specSent := map[int]kit.V{}
-		tampered := false
-		for _, s := range steps {
-			net := s.Get("net")
-			switch s.Get("a").Str() {
-			case "SendAct1", "AnswerAct1", "CheckAct2":
-				if a := net.Get("act").Int(); a != 0 {
-					specSent[a] = net
-				}
-			case "AlterField", "AlterEnvelope":
-				final[net.Get("act").Int()] = target{net: net}
-				tampered = true
-			case "Replay":
-				final[net.Get("act").Int()] = target{net: net, replay: true}
-				tampered = true
+			if a := s.Get("a").Str(); a == "AlterNonceBits" || a == "AlterWord" {
+				flips = true
 			}
 		}
-		var oldS *c20Session
-		for _, tg := range final {
-			if tg.replay {
+		nvar := 1
+		if flips {
+			nvar = 3
+		}
+		for which := 0; which < nvar; which++ {
+			mid := 1 + ci%6
+			wordByte := []int{0, mid, 7}[which]
+			realNonce := func(m kit.V) uint64 {
+				x := c20Nonce[m.Get("n").Int()]
+				off := map[string]int{"lo": 0, "mid": mid, "hi": 7}
+				if o, ok := off[m.Get("f").Str()]; ok {
+					x ^= uint64(0x10) << (8 * uint(o))
+					touched[fmt.Sprintf("nonce_byte_%d", o)] = true
+				}
+				return x
+			}
+			// attacker steps per act, in order; the specification's envelopes as sent
+			type astep struct {
+				net    kit.V
+				replay bool
+			}
+			attack := map[int][]astep{}
+			specSent := map[int]kit.V{}
+			tampered := false
+			needOld := false
+			for _, s := range steps {
+				net := s.Get("net")
+				switch s.Get("a").Str() {
+				case "SendAct1", "AnswerAct1", "CheckAct2":
+					if a := net.Get("act").Int(); a != 0 {
+						specSent[a] = net
+					}
+				case "AlterField", "AlterNonceBits", "AlterWord", "AlterEnvelope":
+					attack[net.Get("act").Int()] = append(attack[net.Get("act").Int()], astep{net: net})
+					tampered = true
+				case "Replay":
+					attack[net.Get("act").Int()] = append(attack[net.Get("act").Int()], astep{net: net, replay: true})
+					tampered = true
+					needOld = true
+				}
+			}
+			var oldS *c20Session
+			if needOld {
 				oldS = runHonest(old.Get("n1").Int(), old.Get("n2").Int(), old.Get("p").Str())
 				if oldS == nil {
 					rep.Eval("honest", nil)
 					return
 				}
 			}
-		}
-		rewrite := func(act int, e *pb.HandshakeEnvelope) *pb.HandshakeEnvelope {
-			tg, ok := final[act]
-			if !ok {
-				return e
-			}
-			if tg.replay {
-				// a later single alteration of a replayed envelope does not occur within the budget used here
-				return proto.Clone(oldS.sent[act]).(*pb.HandshakeEnvelope)
-			}
-			out := &pb.HandshakeEnvelope{}
-			sp := specSent[act]
-			if tg.net.Get("m").JSON() == sp.Get("m").JSON() {
-				out.Message = e.Message
-			} else {
-				out.Message = build(act, tg.net.Get("m"))
-			}
-			out.PeerID = []byte(peers[tg.net.Get("pid").Str()].id)
-			sig := tg.net.Get("sig")
-			if sig.JSON() == sp.Get("sig").JSON() {
-				out.Signature = e.Signature // still the sender's signature over the bytes it sent
-			} else {
-				over := build(act, sig.Get("over"))
-				if sig.Get("over").JSON() == sp.Get("m").JSON() {
-					over = e.Message
+			// morph turns the real bytes of an act (which stand for model message `from`) into real
+			// bytes for model message `to`: untouched fields and challenge words keep their real bytes.
+			morph := func(act int, real []byte, from, to kit.V) []byte {
+				if from.JSON() == to.JSON() {
+					return real
 				}
-				sg, err := peers[sig.Get("by").Str()].priv.Sign(over)
+				var nonce, ch []byte
+				var prot string
+				var m1 pb.Act1Message
+				var m2 pb.Act2Message
+				var m3 pb.Act3Message
+				switch act {
+				case 1:
+					if err := proto.Unmarshal(real, &m1); err != nil {
+						t.Fatal(err)
+					}
+					nonce, prot = m1.Nonce, m1.Protocol
+				case 2:
+					if err := proto.Unmarshal(real, &m2); err != nil {
+						t.Fatal(err)
+					}
+					nonce, prot, ch = m2.Nonce, m2.Protocol, m2.Challenge
+				default:
+					if err := proto.Unmarshal(real, &m3); err != nil {
+						t.Fatal(err)
+					}
+					ch = m3.Challenge
+				}
+				if act != 3 {
+					if from.Get("nonce").JSON() != to.Get("nonce").JSON() {
+						nonce = make([]byte, 8)
+						binary.LittleEndian.PutUint64(nonce, realNonce(to.Get("nonce")))
+					}
+					prot = to.Get("proto").Str()
+				}
+				if act != 1 {
+					ch = append([]byte(nil), ch...)
+					for i, w := range to.Get("chal").List() {
+						fw := from.Get("chal").Idx(i)
+						if fw.JSON() == w.JSON() {
+							continue
+						}
+						if fw.Get("a").JSON() != w.Get("a").JSON() || fw.Get("b").JSON() != w.Get("b").JSON() {
+							h, ok := chal[[2]uint64{realNonce(w.Get("a")), realNonce(w.Get("b"))}]
+							if !ok {
+								t.Fatalf("no challenge known for word %s", w.JSON())
+							}
+							copy(ch[8*i:8*i+8], h[8*i:8*i+8])
+							if w.Get("x").Int() == 1 {
+								ch[8*i+wordByte] ^= 0x01
+								touched[fmt.Sprintf("chal_byte_%d", 8*i+wordByte)] = true
+							}
+						} else { // only the flip differs
+							ch[8*i+wordByte] ^= 0x01
+							touched[fmt.Sprintf("chal_byte_%d", 8*i+wordByte)] = true
+						}
+					}
+				}
+				var msg proto.Message
+				switch act {
+				case 1:
+					msg = &pb.Act1Message{Nonce: nonce, Protocol: prot}
+				case 2:
+					msg = &pb.Act2Message{Nonce: nonce, Challenge: ch, Protocol: prot}
+				default:
+					msg = &pb.Act3Message{Challenge: ch}
+				}
+				b, err := proto.Marshal(msg)
 				if err != nil {
 					t.Fatal(err)
 				}
-				out.Signature = sg
+				return b
 			}
-			return out
-		}
-		n2c := c20Nonce[n2]
-		if n2 == 0 {
-			n2c = 0xdeadbeef
-		}
-		s := c20Run(t, rd, peers["I"], peers["R"], ip, rp, c20Nonce[c.Get("n1").Int()], n2c, rewrite)
-		wantI, wantR := c.Get("ist").Str() == "done", c.Get("rst").Str() == "done"
-		gotI, gotR := s.ierr == nil, s.rerr == nil
-		where := map[string]interface{}{"behaviour": c.X}
-		if gotI != wantI || gotR != wantR {
-			what := fmt.Sprintf("initiator on %q, responder on %q, attacker steps %v: initiator completed = %v (%v), responder completed = %v (%v); the specification says %v / %v",
-				ip, rp, c20Attack(steps), gotI, s.ierr, gotR, s.rerr, wantI, wantR)
-			if (gotI && !wantI) || (gotR && !wantR) {
-				what += ": a side completes a handshake in which an act did not arrive as its peer sent it, or with a peer on another protocol id"
-			}
-			rep.Diverge(fmt.Sprintf("wire:%v/%v->%v/%v", wantI, wantR, gotI, gotR), what, where, []bool{wantI, wantR}, []bool{gotI, gotR})
-		} else {
-			// envelopes as sent
-			for act := 1; act <= 3; act++ {
-				sp, ok := specSent[act]
-				if !ok || s.sent[act] == nil {
-					if ok != (s.sent[act] != nil) {
-						rep.Diverge("wire:sent", fmt.Sprintf("act %d: sent = %v, the specification says %v", act, s.sent[act] != nil, ok), where, ok, s.sent[act] != nil)
+			rewrite := func(act int, e *pb.HandshakeEnvelope) *pb.HandshakeEnvelope {
+				as := attack[act]
+				if len(as) == 0 {
+					return e
+				}
+				// the envelope the attacker works on: the one just sent, or the recorded one
+				baseReal, baseSpec := e, specSent[act]
+				for _, a := range as {
+					if a.replay {
+						baseReal, baseSpec = oldS.sent[act], a.net
 					}
-					continue
 				}
-				f := c20Parse(t, act, s.sent[act].Message)
-				m := sp.Get("m")
-				pair := [2]int{m.Get("chal").Idx(0).Int(), m.Get("chal").Idx(1).Int()}
-				bad := ""
-				if act != 3 && (f.nonce != c20Nonce[m.Get("nonce").Int()] || f.proto != m.Get("proto").Str()) {
-					bad = "nonce / protocol id"
+				tg := as[len(as)-1].net
+				out := &pb.HandshakeEnvelope{}
+				out.Message = morph(act, baseReal.Message, baseSpec.Get("m"), tg.Get("m"))
+				out.PeerID = []byte(peers[tg.Get("pid").Str()].id)
+				sig := tg.Get("sig")
+				if sig.JSON() == baseSpec.Get("sig").JSON() {
+					out.Signature = baseReal.Signature // still the sender's signature over the bytes it sent
+				} else {
+					over := morph(act, baseReal.Message, baseSpec.Get("m"), sig.Get("over"))
+					sg, err := peers[sig.Get("by").Str()].priv.Sign(over)
+					if err != nil {
+						t.Fatal(err)
+					}
+					out.Signature = sg
 				}
-				if act != 1 && f.chal != chal[pair] {
-					bad = fmt.Sprintf("challenge (expected the one of nonces %v)", pair)
+				return out
+			}
+			n2c := c20Nonce[n2]
+			if n2 == 0 {
+				n2c = 0xdeadbeef
+			}
+			s := c20Run(t, rd, peers["I"], peers["R"], ip, rp, c20Nonce[c.Get("n1").Int()], n2c, rewrite)
+			wantI, wantR := c.Get("ist").Str() == "done", c.Get("rst").Str() == "done"
+			gotI, gotR := s.ierr == nil, s.rerr == nil
+			where := map[string]interface{}{"behaviour": c.X}
+			if gotI != wantI || gotR != wantR {
+				what := fmt.Sprintf("initiator on %q, responder on %q, attacker steps %v: initiator completed = %v (%v), responder completed = %v (%v); the specification says %v / %v",
+					ip, rp, c20Attack(steps), gotI, s.ierr, gotR, s.rerr, wantI, wantR)
+				if (gotI && !wantI) || (gotR && !wantR) {
+					what += ": a side completes a handshake in which an act did not arrive as its peer sent it, or with a peer on another protocol id"
 				}
-				if string(s.sent[act].PeerID) != string(peers[sp.Get("pid").Str()].id) {
-					bad = "peer id"
-				}
-				if bad != "" {
-					rep.Diverge("wire:content", fmt.Sprintf("act %d as sent differs from the specification in its %s", act, bad), where, sp.X, fmt.Sprintf("%+v", f))
+				rep.Diverge(fmt.Sprintf("wire:%v/%v->%v/%v", wantI, wantR, gotI, gotR), what, where, []bool{wantI, wantR}, []bool{gotI, gotR})
+			} else {
+				// envelopes as sent
+				for act := 1; act <= 3; act++ {
+					sp, ok := specSent[act]
+					if !ok || s.sent[act] == nil {
+						if ok != (s.sent[act] != nil) {
+							rep.Diverge("wire:sent", fmt.Sprintf("act %d: sent = %v, the specification says %v", act, s.sent[act] != nil, ok), where, ok, s.sent[act] != nil)
+						}
+						continue
+					}
+					f := c20Parse(t, act, s.sent[act].Message)
+					m := sp.Get("m")
+					bad := ""
+					if act != 3 && (f.nonce != realNonce(m.Get("nonce")) || f.proto != m.Get("proto").Str()) {
+						bad = "nonce / protocol id"
+					}
+					if act != 1 {
+						// what a side sends is never flipped in the specification: all four words name one pair
+						w := m.Get("chal").Idx(0)
+						pair := [2]uint64{realNonce(w.Get("a")), realNonce(w.Get("b"))}
+						if want, ok := chal[pair]; ok {
+							if f.chal != want {
+								bad = fmt.Sprintf("challenge (expected the one of nonces %x)", pair)
+							}
+						} else if prev, dup := seenChal[f.chal]; dup && prev != pair {
+							// a nonce with flipped bits reached the responder: its challenge must be a new one
+							bad = fmt.Sprintf("challenge: the one of nonces %x is sent for nonces %x", prev, pair)
+						}
+					}
+					if string(s.sent[act].PeerID) != string(peers[sp.Get("pid").Str()].id) {
+						bad = "peer id"
+					}
+					if bad != "" {
+						rep.Diverge("wire:content", fmt.Sprintf("act %d as sent differs from the specification in its %s", act, bad), where, sp.X, fmt.Sprintf("%+v", f))
+					}
 				}
 			}
+			k := ""
+			if tampered || ip != rp {
+				k = kit.Hash(c.X)
+			}
+			if k != "" && nvar == 3 {
+				k += fmt.Sprintf("/%d", which)
+			}
+			rep.Eval(k, map[string]interface{}{"ip": ip, "rp": rp, "attack": c20Attack(steps), "initiator": gotI, "responder": gotR})
 		}
-		k := ""
-		if tampered || ip != rp {
-			k = kit.Hash(c.X)
-		}
-		rep.Eval(k, map[string]interface{}{"ip": ip, "rp": rp, "attack": c20Attack(steps), "initiator": gotI, "responder": gotR})
+	}
+	for b := range touched {
+		rep.Count(b, 1)
 	}
 	rep.Count("honest_sessions", len(honest))
 }
@@ -390,7 +482,7 @@ func c20Attack(steps []kit.V) []string {
 	var out []string
 	for _, s := range steps {
 		switch a := s.Get("a").Str(); a {
-		case "AlterField", "AlterEnvelope", "Replay":
+		case "AlterField", "AlterNonceBits", "AlterWord", "AlterEnvelope", "Replay":
 			out = append(out, fmt.Sprintf("%s(act %d)", a, s.Get("net").Get("act").Int()))
 		}
 	}
